@@ -561,40 +561,98 @@ def genCtx (v : V) : Gen String := do
 
 /-! ## near-miss targets -/
 
-def mutate (v : V) : Gen V := do
+/- canonical form of an arbitrary `V` (sets sorted/deduplicated, tuples sorted by name) -/
+mutual
+def canonV : V → V
+  | .num n => .num n
+  | .tup as => V.mkTup (canonAttrsV as)
+  | .set xs => V.mkSet (canonListV xs)
+def canonAttrsV : List (String × V) → List (String × V)
+  | [] => []
+  | (n, v) :: r => (n, canonV v) :: canonAttrsV r
+def canonListV : List V → List V
+  | [] => []
+  | v :: r => canonV v :: canonListV r
+end
+
+def isSetV : V → Bool
+  | .set _ => true
+  | _ => false
+
+/-- change a value at its root into a different but similar one -/
+def mutateHere (v : V) : Gen V := do
+  let r ← rand 8
   match v with
-  | .num n => pure (.num (n + 1))
+  | .num n => pure (if r < 6 then .num (n + 1) else .set [.num n])
   | .tup as =>
-    if as.isEmpty then pure (.tup [("zq", .num 1)]) else
+    if as.isEmpty then pure (if r < 4 then .tup [("zq", .num 1)] else .set []) else
     let i ← rand as.length
-    let r ← rand 3
-    if r == 0 then pure (.tup (as.eraseIdx i))
+    if r < 2 then pure (.tup (as.eraseIdx i))
+    else if r == 2 then pure (.set [.tup as])
+    else if r == 3 then pure (.tup (as.zipIdx.map (fun p => if p.2 == i then (p.1.1 ++ "q", p.1.2) else p.1)))
     else pure (.tup (as.zipIdx.map (fun p => if p.2 == i then (p.1.1, match p.1.2 with
-      | .num n => V.num (n + 1) | .set [] => V.num 0 | _ => V.set []) else p.1)))
+      | .num n => V.num (n + 1) | .set [] => V.set [.set []] | x => V.set [x]) else p.1)))
   | .set ms =>
-    if ms.isEmpty then pure (.set [.tup []]) else
-    let r ← rand 3
+    if ms.isEmpty then pure (if r < 3 then .set [.tup []] else if r < 6 then .set [.set []] else .num 0) else
     let i ← rand ms.length
-    if r == 0 then pure (V.mkSet (ms.eraseIdx i))
-    else if r == 1 then pure (V.mkSet (.num (freshNum ms) :: ms))
-    else
-      -- change one member (for index tuples: the element, keeping the index)
-      let m := ms.getD i (.num 0)
-      let m' : V := match m with
-        | .num n => .num (n + 1)
-        | .tup [("@", i), (nm, .num c)] => .tup [("@", i), (nm, .num (c + 1))]
-        | .tup [("@", i), (nm, _)] => .tup [("@", i), (nm, .num 5)]
-        | .tup as => .tup (as.map (fun p => (p.1, match p.2 with | .num n => V.num (n + 1) | x => x)))
-        | .set [] => .set [.tup []]
-        | .set _ => .set []
-      pure (V.mkSet (m' :: ms.eraseIdx i))
+    let seqShift (name : String) (ps : List (Int × V)) (k : Int) : V :=
+      .set (ps.map (fun p => V.tup [("@", .num (p.1 + k)), (name, p.2)]))
+    match shapeOf ms, r with
+    -- sequences: shift the offset, or change the kind of sequence
+    | .str ps, 0 => pure (seqShift "@char" ps 1)
+    | .str ps, 1 => pure (seqShift "@byte" ps 0)
+    | .str ps, 2 => pure (seqShift "@char" ps (-1))
+    | .bytes ps, 0 => pure (seqShift "@byte" ps 1)
+    | .bytes ps, 1 => pure (seqShift "@char" (ps.map (fun p => (p.1, V.num (numOf p.2 % 3 + 97)))) 0)
+    | .arr ps, 0 => pure (seqShift "@item" ps 1)
+    | .arr ps, 1 => pure (.set (ps.map (fun p => V.tup [("@", .num p.1), ("@value", p.2)])))
+    | _, _ =>
+      -- sets of sets: move a member of one inner set into another (same XOR of leaf hashes)
+      let inner := ms.filter (fun m => match m with | .set (_ :: _) => true | _ => false)
+      if r == 3 && inner.length ≥ 2 then
+        match ms.partition (fun m => match m with | .set (_ :: _) => true | _ => false) with
+        | (.set (x :: xs) :: .set ys :: rest, others) => pure (.set (.set xs :: .set (x :: ys) :: rest ++ others))
+        | _ => pure (.set (ms.eraseIdx i))
+      else if r == 4 then pure (.set [.set ms])                       -- wrap
+      else if r == 5 then pure (.set (ms.eraseIdx i))                 -- drop a member
+      else if r == 6 then pure (.set (.num (freshNum ms) :: ms))      -- add a member
+      else
+        match ms with
+        | [m] => pure (if isSetV m then m else .set [m, .num (freshNum ms)])   -- unwrap
+        | _ => pure (.set (ms.eraseIdx i))
+
+/-- mutate at a random position (`d` bounds the descent) -/
+def mutate : Nat → V → Gen V
+  | 0, v => mutateHere v
+  | d + 1, v => do
+    let here ← chance 1 2
+    if here then mutateHere v else
+    match v with
+    | .num _ => mutateHere v
+    | .tup as =>
+      if as.isEmpty then mutateHere v else
+      let i ← rand as.length
+      let sub ← mutate d ((as.getD i ("", V.num 0)).2)
+      pure (.tup (as.zipIdx.map (fun p => if p.2 == i then (p.1.1, sub) else p.1)))
+    | .set ms =>
+      if ms.isEmpty then mutateHere v else
+      let i ← rand ms.length
+      let m := ms.getD i (V.num 0)
+      -- do not descend into the index tuples of sequences / dict entries: mutate their payload
+      match m with
+      | .tup [("@", ix), (nm, x)] =>
+        let sub ← mutate d x
+        pure (.set (ms.zipIdx.map (fun p => if p.2 == i then V.tup [("@", ix), (nm, sub)] else p.1)))
+      | _ =>
+        let sub ← mutate d m
+        pure (.set (ms.zipIdx.map (fun p => if p.2 == i then sub else p.1)))
 
 /-! ## observables -/
 
 def boolS (b : Bool) : String := if b then "true" else "false"
 
-def obsLine (eq qe cnt dict repr lt gt ctx ctxden : String) (ca cb : String) : String :=
-  s!"eq={eq};qe={qe};cnt={cnt};dict={dict};repr={repr};lt={lt};gt={gt};ctx={ctx};ctxden={ctxden}|{ca}|{cb}"
+def obsLine (eq qe cnt dict repr lt gt ctx ctxden : String) (ca cb : String) (st : String := "-") : String :=
+  s!"eq={eq};qe={qe};set={st};cnt={cnt};dict={dict};repr={repr};lt={lt};gt={gt};ctx={ctx};ctxden={ctxden}|{ca}|{cb}"
 
 /-- what the property demands of two programs with denotations `da`, `db` -/
 def specObs (da db : V) (flags : String) (hasCtx : Bool) : String :=
@@ -602,9 +660,10 @@ def specObs (da db : V) (flags : String) (hasCtx : Bool) : String :=
   if da == db then
     obsLine (on 'e' "true") (on 'q' "true") (on 'c' "1") (on 'd' "1") (on 'r' "true") (on 'l' "false") (on 'g' "false")
       (if hasCtx && flags.toList.contains 'f' then "true" else "-")
-      (if hasCtx && flags.toList.contains 'F' then "true" else "-") da.canon db.canon
+      (if hasCtx && flags.toList.contains 'F' then "true" else "-") da.canon db.canon (on 's' "true")
   else
     obsLine (on 'e' "false") (on 'q' "false") (on 'c' "2") (on 'd' "error") "-" "-" "-" "-" "-" da.canon db.canon
+      (on 's' "false")
 
 def resCount : Res Rep → String
   | .ok r => toString (Rep.count r)
@@ -616,6 +675,9 @@ def modelObs (da db : V) (flags : String) (hasCtx : Bool) : String :=
   match build da, build db with
   | .ok ra, .ok rb =>
     let e := equal ra rb
+    let st := match setBuilderFinish [ra], setBuilderFinish [rb] with
+      | .ok sa, .ok sb => boolS (equal sa sb)
+      | _, _ => "panic"
     let cnt := resCount (setBuilderFinish [ra, rb])
     let dict := match dictGet (newDict [(ra, .num 1)]) rb with
       | [.num 1] => "1"
@@ -624,10 +686,10 @@ def modelObs (da db : V) (flags : String) (hasCtx : Bool) : String :=
       obsLine (on 'e' (boolS e)) (on 'q' (boolS (equal rb ra))) (on 'c' cnt) (on 'd' dict) (on 'r' (boolS e))
         (on 'l' "false") (on 'g' "false")
         (if hasCtx && flags.toList.contains 'f' then boolS e else "-")
-        (if hasCtx && flags.toList.contains 'F' then boolS e else "-") (den ra).canon (den rb).canon
+        (if hasCtx && flags.toList.contains 'F' then boolS e else "-") (den ra).canon (den rb).canon (on 's' st)
     else
       obsLine (on 'e' (boolS e)) (on 'q' (boolS (equal rb ra))) (on 'c' cnt) (on 'd' dict) "-" "-" "-" "-" "-"
-        (den ra).canon (den rb).canon
+        (den ra).canon (den rb).canon (on 's' st)
   | _, _ => "panic"
 
 /-- the concrete Go representation the constructors are supposed to produce (harness op `rep`) -/
@@ -662,19 +724,19 @@ def mkPair (id stratum : String) (da db : V) (srcA srcB ctx : String) (kfs : Lis
     { id := id, cls := cls, kind := "pair", stratum := stratum,
       model := modelObs da db flags hasCtx, spec := specObs da db flags hasCtx,
       payload := [srcA, srcB, if hasCtx then ctx else "", flags] }
-  if superimposed da || superimposed db then [mk id "KF-superimposed" (if pos then "eqcdrlgfF" else "eqcd")]
-  else if bytesHoles da || bytesHoles db then [mk id "KF-bytes-holes" (if pos then "eqcdfF" else "eqcd")]
+  if superimposed da || superimposed db then [mk id "KF-superimposed" (if pos then "eqscdrlgfF" else "eqscd")]
+  else if bytesHoles da || bytesHoles db then [mk id "KF-bytes-holes" (if pos then "eqscdfF" else "eqscd")]
   else match kfs with
-    | k :: _ => [mk id k (if pos then "eqcdrlgfF" else "eqcd")]
+    | k :: _ => [mk id k (if pos then "eqscdrlgfF" else "eqscd")]
     | [] =>
-      if !pos then [mk id "good" "eqcd"] else
+      if !pos then [mk id "good" "eqscd"] else
       -- observables that run into C06's findings are split off into a case of their own class
       let nb := bytesCount da
       let trap := lessTrap da
       let nu := unionRelCount da
       let dropLG := nb ≥ 1 || trap || nu ≥ 1
       let dropR := nb ≥ 2 || trap || nu ≥ 2
-      let flags := String.ofList ("eqcdrlgfF".toList.filter (fun c =>
+      let flags := String.ofList ("eqscdrlgfF".toList.filter (fun c =>
         !((dropLG && (c == 'l' || c == 'g')) || (dropR && c == 'r'))))
       let sharp := mk id "good" flags
       let kfBytes := if nb ≥ 1 then [mk (id ++ "b") "KF-bytes-less" (if nb ≥ 2 then "lgr" else "lg")] else []
@@ -709,7 +771,12 @@ def genCase (idx : Nat) (thorough : Bool) : Gen (List Case) := do
     -- the generator of literals does not produce these; keep the case well-formed anyway
     pure (mkPair id "superimposed" t t (plain t) (plain t) "" [])
   else if negative then
-    let t2 ← mutate t
+    let md ← rand 3
+    let t2' := canonV (← mutate md t)
+    -- a mutant that the tuple constructors reject (non-number under a sugar heading) is replaced
+    let t2 := match build t2' with
+      | .ok _ => if superimposed t2' then V.mkSet [t, .num 7] else t2'
+      | .panic => V.mkSet [t, .num 7]
     let (a, sa) ← (genPath pd t).run {}
     let (b, sb) ← (genPath pd t2).run {}
     pure (mkPair id ("neg/" ++ shapeName t) t t2 a b "" (sa.kf ++ sb.kf))
@@ -751,6 +818,29 @@ def corpus : List Case :=
     pos "C02-corpus-11" "{(@: 0, @char: -5) :> . + 100}" "100\\'_'" (s [95] 100) "\\x 1\\x",
     mkPair "C02-corpus-12" "corpus" (s [44]) (V.mkSet [V.mkTup [("@", .num 0), ("@byte", .num 300)]])
       "(<<44>> => (@: .@, @char: .@byte))" "{(@: 0, @byte: 300)}" "" [],
+    -- hashes: frozen identifies set elements by their hash; XOR-linear / offset-blind hashes collided
+    (let n (k : Int) : V := .num k
+     let st (l : List V) : V := V.mkSet l
+     let neg (id a b : String) (va vb : V) : List Case := mkPair id "corpus" va vb a b "" []
+     List.flatten [
+       neg "C02-corpus-20" "{{1, 2}, {3}}" "{{1, 3}, {2}}" (st [st [n 1, n 2], st [n 3]]) (st [st [n 1, n 3], st [n 2]]),
+       neg "C02-corpus-21" "{{}}" "{}" (st [st []]) (st []),
+       neg "C02-corpus-22" "{{{}}}" "{{}}" (st [st [st []]]) (st [st []]),
+       neg "C02-corpus-23" "'a'" "1\\'a'" (s [97]) (s [97] 1),
+       neg "C02-corpus-24" "'a'" "<<97>>" (s [97]) (Lit.bytes 0 [97]).den,
+       neg "C02-corpus-25" "<<1>>" "1\\<<1>>" (Lit.bytes 0 [1]).den (Lit.bytes 1 [1]).den,
+       neg "C02-corpus-26" "[{1, 2}, {3}]" "[{1, 3}, {2}]" (Lit.arr 0 [some (.set [.num 1, .num 2]), some (.set [.num 3])]).den
+         (Lit.arr 0 [some (.set [.num 1, .num 3]), some (.set [.num 2])]).den,
+       neg "C02-corpus-27" "[true, true]" "[{}, {}]" (Lit.arr 0 [some .tt, some .tt]).den (Lit.arr 0 [some .ff, some .ff]).den,
+       neg "C02-corpus-28" "{[1, 2], [3]}" "{[1], [3, 2]}"
+         (st [(Lit.arr 0 [some (.num 1), some (.num 2)]).den, (Lit.arr 0 [some (.num 3)]).den])
+         (st [(Lit.arr 0 [some (.num 1)]).den, (Lit.arr 0 [some (.num 3), some (.num 2)]).den]),
+       neg "C02-corpus-29" "(a: {{}})" "(a: {})" (V.mkTup [("a", st [st []])]) (V.mkTup [("a", st [])]),
+       neg "C02-corpus-30" "'a\uFFFDc'" "('a' ++ 1\\'c')" (s [97, 0xFFFD, 99])
+         (V.mkSet [V.mkTup [("@", n 0), ("@char", n 97)], V.mkTup [("@", n 2), ("@char", n 99)]]),
+       neg "C02-corpus-31" "{1: {(a: 1, b: 2), (c: 3)}}" "{1: {(a: 1), (b: 2, c: 3)}}"
+         (Lit.dict [(.num 1, .set [.tup [("a", .num 1), ("b", .num 2)], .tup [("c", .num 3)]])]).den
+         (Lit.dict [(.num 1, .set [.tup [("a", .num 1)], .tup [("b", .num 2), ("c", .num 3)]])]).den ]),
     -- C01's finding, classed narrowly
     mkPair "C02-corpus-13" "corpus" (s [97, 98, 99, 100]) (s [97, 98, 99, 100]) "(2\\'cd' | 'ab')" "'abcd'" ""
       ["KF-string-with-fallback"]
